@@ -17,6 +17,7 @@ func init() {
 type vRecBase struct {
 	log    []string
 	poison string
+	isFlag bool // what IsBoolFlag() answers, for the types that have the method
 }
 
 func (r *vRecBase) String() string { return "rec" }
@@ -45,10 +46,10 @@ func (r *vRec010) Clear()           { r.log = append(r.log, "C") }
 func (r *vRec011) Clear()           { r.log = append(r.log, "C") }
 func (r *vRec110) Clear()           { r.log = append(r.log, "C") }
 func (r *vRec111) Clear()           { r.log = append(r.log, "C") }
-func (r *vRec100) IsBoolFlag() bool { return true }
-func (r *vRec101) IsBoolFlag() bool { return true }
-func (r *vRec110) IsBoolFlag() bool { return true }
-func (r *vRec111) IsBoolFlag() bool { return true }
+func (r *vRec100) IsBoolFlag() bool { return r.isFlag }
+func (r *vRec101) IsBoolFlag() bool { return r.isFlag }
+func (r *vRec110) IsBoolFlag() bool { return r.isFlag }
+func (r *vRec111) IsBoolFlag() bool { return r.isFlag }
 
 func vMkRec(c int, poison string) (flag.Value, *vRecBase) {
 	switch c {
@@ -82,10 +83,12 @@ func H_custom() {
 	c := vParamInt("combo") // bit 2 IsBoolFlag, bit 1 Clear, bit 0 IsDefault
 	asOpt := vParamInt("opt") == 1
 	lp := vParamInt("Lp")
-	isBool := c&4 != 0
+	flagAnswer := vParamInt("flagAnswer") == 1 // what IsBoolFlag() returns when the type has the method
+	isBool := c&4 != 0 && flagAnswer
 	multi := c&2 != 0
 	poison := vNondetString("poison", lp)
 	val, rec := vMkRec(c, poison)
+	rec.isFlag = flagAnswer
 	// environment
 	env := vAsciiString("env", vParamInt("envLen"))
 	if env != "" {
@@ -105,7 +108,11 @@ func H_custom() {
 		vAssume(len(p) > 0)
 		cli = append(cli, p)
 		if asOpt {
-			argv = append(argv, "--xx="+p)
+			if !isBool && p[0] != '-' && vChoice("separate", 2) == 1 {
+				argv = append(argv, "-x", p) // a type that is not a flag takes its value from the next token
+			} else {
+				argv = append(argv, "--xx="+p)
+			}
 		}
 	}
 	if !asOpt {
